@@ -475,6 +475,7 @@ def verify_function(lib, cls, fname, fnode, con, timeout_ms=10000, want_models=T
     if getattr(con, "has_normal_exit", True) and (shard is None or shard[0] == 0):
         reach = False
         weak = False
+        undecided_paths = []
         for o in outcomes:
             if o.kind in ("next", "return"):
                 r = logic.solve(o.state.pc + o.state.hyps, [], timeout_ms=timeout_ms, want_model=True,
@@ -484,6 +485,18 @@ def verify_function(lib, cls, fname, fnode, con, timeout_ms=10000, want_models=T
                     break
                 if "sat-after-instantiation" in r.reason:
                     weak = True
+                elif r.status != "proved":
+                    undecided_paths.append(o)
+        if not reach and not weak and undecided_paths:
+            # the solver gave up (e.g. a busy machine): once more with a long budget before calling anything vacuous
+            for o in undecided_paths[:3]:
+                r = logic.solve(o.state.pc + o.state.hyps, [], timeout_ms=max(timeout_ms, 10000) * 4, want_model=True,
+                                len_terms=lib.len_terms(o.state), mode="model")
+                if r.status == "refuted":
+                    reach = True
+                    break
+                if r.status != "proved":
+                    weak = True       # not shown unreachable: never reported as vacuous
         if reach:
             canary["reason"] = "a normal exit path has a validated model"
         elif weak:
